@@ -43,6 +43,13 @@ fn main() {
         Some(rest) => rest.trim_end_matches('/'),
         None => std::process::exit(1)
     };
+    // host names are case-insensitive: the remote side is kept under the
+    // lower-case spelling
+    let rest = match rest.split_once('/') {
+        Some((host, path)) => format!("{}/{path}", host.to_ascii_lowercase()),
+        None => rest.to_ascii_lowercase(),
+    };
+    let rest = rest.as_str();
     if case.join("unreachable").join(rest).exists() {
         eprintln!("rsync: failed to connect to {rest}: Connection refused (111)");
         std::process::exit(10)
